@@ -1,12 +1,12 @@
 (* C20_check.v — case types, model runners and executable property checks for the C20 correspondence. *)
 Require Export Verif.Model.Base Verif.Model.Codec Verif.Model.JsonText.
-From Coq Require Strings.String Strings.Ascii Uint63.
+From Coq Require Strings.String Strings.Ascii.
 Export Coq.Strings.String.StringSyntax.
 Delimit Scope string_scope with str.
 
 (* Texts in case files.  [tx]: string literal (slow to parse, used sparingly); [dn k]: k-th entry of the dictionary
    of member names below (the Go harness holds the same list; an unknown name is simply written out);
-   [txp]: bytes packed seven to a primitive integer, length in bits 56..58. *)
+   [txp] (Check/C20_tx.v): bytes packed seven to a primitive integer, length in bits 56..58. *)
 Definition tx (s : String.string) : list N := map Ascii.N_of_ascii (String.list_ascii_of_string s).
 Definition dict : list String.string := [
   "0"; "0001-01-01T00:00:00Z"; "0s"; "0x"; "1"; "Addresses"; "DataAvailabilityFee"; "ExecutionFee";
@@ -37,10 +37,8 @@ Definition dict : list String.string := [
 ]%str.
 Definition dict_tx : list (list N) := Eval vm_compute in map tx dict.
 Definition dn (k : N) : list N := nth (N.to_nat k) dict_tx [].
-Definition chunk_bytes (c : Uint63.int) : list N :=
-  let len := Z.to_nat (Uint63.to_Z (Uint63.land (Uint63.lsr c (Uint63.of_Z 56)) (Uint63.of_Z 7))) in
-  map (fun i => Z.to_N (Uint63.to_Z (Uint63.land (Uint63.lsr c (Uint63.of_Z (8 * Z.of_nat i))) (Uint63.of_Z 255)))) (seq 0 len).
-Definition txp (l : list Uint63.int) : list N := flat_map chunk_bytes l.
+(* [txp] (bytes packed into primitive 63-bit integers, used by the case files only) lives in Check/C20_tx.v, so that the
+   theorem files, which import this file for the judges, do not load the Uint63 library and its axioms. *)
 
 (* ================= part leaf: the custom marshalers, called directly on generated tokens / values ================= *)
 Inductive leaf_in :=
@@ -252,5 +250,3 @@ Definition sort_known (i : sort_in) : N :=
   end.
 Definition sort_judge := judge sort_model sort_oeqb sort_ok sort_known.
 
-(* number notation for the packed chunks in case files *)
-Export Coq.Numbers.Cyclic.Int63.PrimInt63.
